@@ -71,6 +71,12 @@ func init() {
 			for _, rt := range [][2]int{{100, 500}, {300, 700}, {100, 1000}, {2000, 350}, {600, 900}} {
 				cs = append(cs, ev.MkCase("udp", c13P{Step: "open", Fault: "open-status-temp", Timeout: rt[0], Deadline: rt[1], Seed: seed}))
 			}
+			// a zero per-request timeout (legal, if useless): nothing can be received in it, and the call is
+			// still back by its deadline with an error
+			for _, st := range []string{"sessionless", "open", "discovery", "suites-idx1"} {
+				cs = append(cs, ev.MkCase("udp", c13P{Step: st, Fault: "blackhole", Timeout: 0, Deadline: 400, Seed: seed}))
+				cs = append(cs, ev.MkCase("udp", c13P{Step: st, Fault: "garbage", Timeout: 0, Deadline: 700, Seed: seed}))
+			}
 			// steps that carry their own fault: the BMC's port is gone (ICMP errors instead of silence), the
 			// repository holds a Full Sensor Record longer than the library reads (the walk can never complete)
 			for _, st := range []string{"dead-port-sessionless", "dead-port-open", "sdr-oversize"} {
@@ -219,7 +225,11 @@ func c13UDP(run *ev.Run, p c13P, cs ev.Case) (string, func()) {
 	sensorRec, sensorDev, dcmiDev := c13Devices(r)
 	b.Handler = refbmc.Chain(repo.Handle, cssrv.Handle, sensorDev.Handle, dcmiDev.Handle, refbmc.Fixed(6, 0x37, 0, rbytes(r, 16)),
 		refbmc.Fixed(6, 0x01, 0, []byte{0x20, 0x81, 0x03, 0x15, 0x02, 0xbf, 0x57, 0x01, 0x00, 0x34, 0x12}), refbmc.Fixed(6, 0x3c, 0, nil))
-	srv, err := udpbmc.Listen(b)
+	listen := udpbmc.Listen
+	if (p.Seed+int64(len(p.Step)*3+len(p.Fault)))%5 == 0 {
+		listen = udpbmc.ListenV6 // a fifth of the cases run over the IPv6 loopback
+	}
+	srv, err := listen(b)
 	if err != nil {
 		return "inconclusive", nil
 	}
